@@ -166,6 +166,24 @@ UNIT = {
                 'r is Err && ' + NO_LEAK + ' ==> final(self).saved_fds@ == old(self).saved_fds@ && final(self).env.system.table() =~= old(self).env.system.table()',
                 'same_failures(old(self).env.system, final(self).env.system)',
             ]}),
+        (RD, [GUARD, 'fn perform_redirs'], {'ret': 'r', 'rewrites': ['strip-async'],
+            'attrs': ['#[verifier::loop_isolation(false)]'],
+            # the generic `I: IntoIterator<Item = &Redir>` is checked at `&[Redir]` (what every caller but one passes; the other
+            # passes `vec.iter()`)
+            'sig_token_rewrites': [("< 'a , I >", "<'a>"), ('redirs : I', "redirs: &'a [Redir]"), ("I : IntoIterator < Item = & 'a Redir > ,", '')],
+            'token_rewrites': [('xtrace . as_deref_mut ( )', 'verif_reborrow(&mut xtrace)'), ('for redir in redirs', 'for redir in verif_it: redirs')],
+            'requires': ['wf_records(old(self).saved_fds@)'],
+            'ensures': [
+                'wf_records(final(self).saved_fds@)',
+                # however many redirections were performed before one failed, the guard can get back to where it started:
+                # every backing copy made on the way is on record
+                'forall|base: Table| ginv(old(self).saved_fds@, old(self).env.system.table(), base) && ' + NO_LEAK + ' ==> ginv(final(self).saved_fds@, final(self).env.system.table(), base)',
+                'same_failures(old(self).env.system, final(self).env.system)',
+            ],
+            'loops': {0: {'invariant': [
+                'wf_records(self.saved_fds@)', 'same_failures(old(self).env.system, self.env.system)',
+                'forall|base: Table| ginv(old(self).saved_fds@, old(self).env.system.table(), base) && ' + NO_LEAK + ' ==> ginv(self.saved_fds@, self.env.system.table(), base)',
+            ]}}}),
         (RD, [GUARD, 'fn undo_redirs'], {
             'requires': ['wf_records(old(self).saved_fds@)'],
             # `for x in v.drain(..).rev()` is `while let Some(x) = v.pop()`: the elements from the last to the first, and the
